@@ -10,6 +10,7 @@ fitted attributes of list ensembles), the input arrays (bytes), pickling and clo
 An observed parameter write the table says is impossible = unsound translator = correspondence failure."""
 import copy
 import inspect
+import os
 import json
 import pickle
 import warnings
@@ -48,7 +49,9 @@ def run(ctx):
     ctx.trusted += ["harness/translate/frame.py: its effect set for a statement covers what the statement can do to self's attributes and their aliases "
                     "(fail-closed on unknown constructs; cross-checked by the dynamic get_params comparison)",
                     "deep structural snapshots (harness/snap.py) as the notion of 'unchanged'"]
-    ctx.assume += ["(b) caller-owned models and (c) caller arrays are validated dynamically only (numpy views / helper functions defeat a static handle)"]
+    ctx.assume += ["(c) caller arrays are validated dynamically only (numpy views / helper functions defeat a static handle); (b) caller-owned models: static "
+                   "may-analysis of mutating uses (fit / partial_fit / set_params / attribute assignment) + dynamic snapshots"]
+    ctx.trusted += ["harness/translate/modelfit.py (which calls mutate: fit, partial_fit, set_params, set_base_clf, attribute assignment, setattr; freshness = clone / deepcopy / constructor)"]
     ctx.coq_props()
     table, offenders = FR.check_table(ctx, lambda e: e["file"].startswith("skactiveml/pool") or e["class"] in ("PoolQueryStrategy", "SingleAnnotatorPoolQueryStrategy", "MultiAnnotatorPoolQueryStrategy", "QueryStrategy"), "C05")
     static_flagged = set()
@@ -58,6 +61,26 @@ def run(ctx):
             ctx.violation(cls, "param_write_static", f"{f}: {cls}.{m} may write or mutate constructor parameter '{p}'",
                           {"class": cls, "method": m, "param": p, "file": f}, found_input=False,
                           what=f"obligation C05_no_param_writes no longer checks: {cls}.{m} -> parameter {p}")
+    # ---- static (b): no mutating use of a model object that may still be the caller's ----
+    from ..translate import modelfit as TM
+    from ..core import blit, natlit
+    mrows, nfun = TM.rows()
+    with open(os.path.join(ctx.build, "C05_models.v"), "w") as f:
+        body = [f"({natlit(0)}, {blit(ok)})  (* {fl}:{line} {fn}: {what} *)".replace("(*", "(*").replace("**", "* *") for fl, fn, line, what, ok in mrows]
+        f.write("From Coq Require Import List Bool.\nFrom V Require Import Model.RngProv.\nImport ListNotations.\n"
+                "Definition model_mutation_sites : list site := [\n  " + ";\n  ".join(body) + "\n].\n"
+                "Theorem C05_caller_models_not_mutated : sites_ok model_mutation_sites = true.\nProof. vm_compute. reflexivity. Qed.\n"
+                "Print Assumptions C05_caller_models_not_mutated.\n")
+    rc, so, se = ctx.coqc(os.path.join(ctx.build, "C05_models.v"))
+    okm = rc == 0 and "Closed under the global context" in so
+    ctx.obligations.append({"name": f"C05_caller_models_not_mutated ({nfun} functions of skactiveml/pool scanned, {len(mrows)} reviewed sites; regenerated from /repo)",
+                            "discharged": okm, "assumptions": "Closed under the global context" if okm else (se or so)[-300:]})
+    badm = [r for r in mrows if not r[4]]
+    for fl, fn, line, what, ok in badm[:10]:
+        ctx.violation(fn.split(".")[0], "caller_model_mutated_static", f"{fl}:{line} in {fn}: {what} on an object that may be the caller's", {"file": fl, "function": fn, "line": line, "what": what},
+                      found_input=False, what=f"obligation C05_caller_models_not_mutated no longer checks: {fl}:{line} ({fn}) {what}")
+    if not okm and not badm:
+        ctx.broken("model_mutation_table", "the regenerated model-mutation table theorem does not check", (se or so)[-1500:])
     # ---- dynamic ----
     entries = [(E.name, E.make, E.task, E.kw, E) for E in R.registry()]
     for name, mk, task, kw in variants():
